@@ -3,7 +3,8 @@
      IcyDraw::to_bytes     which chunks are written, in which order, under which keyword, with which payload:
                            ICED header, SAUCE (if the buffer has sauce), PALETTE (unless Palette::is_default), FONT_k for
                            every (k, font) of Buffer::font_iter, LAYER_i for every layer, END        -> iced_payload, doc_chunks, save
-     IcyDraw::load_buffer  the dispatch on the chunk keyword (END / ICED / PALETTE / SAUCE / FONT_ prefix + parse /
+     IcyDraw::load_buffer  the dispatch on the chunk keyword (END / ICED / PALETTE / SAUCE / FONT_ prefix + parse +
+                           read_utf8_encoded_string (length prefix, String::from_utf8_lossy: Model/Unicode.v utf8_lossy) /
                            not LAYER_ -> ignored / LAYER_(\d+)~(\d+) / layer record) on a Buffer::new((80, 25)) whose
                            layers were cleared                                                        -> step, load_chunks, load
      Buffer::new, Buffer::set_font (HashMap insert), Buffer::set_size (src/buffers.rs)               -> init_state, set_font, step
@@ -18,6 +19,7 @@
    its panics (a cell whose font page has no font) are outside the model. *)
 From Coq Require Import ZArith NArith List Bool String Ascii DecimalString.
 From IE Require Import Lib.Tbl Gen.IcyGen Model.IcyLayer.
+From IE Require Model.Unicode.          (* not imported: Unicode.is_cont is another function than is_cont below *)
 Import ListNotations.
 Local Open Scope N_scope.
 
@@ -166,7 +168,7 @@ Section Doc.
       | Some k =>
         do p <- take 4 bytes;
         do q <- take (unle (fst p)) (snd p);
-        do f <- font_dec (fst q) (snd q);
+        do f <- font_dec (Unicode.utf8_lossy (fst q)) (snd q);      (* read_utf8_encoded_string: from_utf8_lossy *)
         Ok (mkDoc (d_w D) (d_h D) (d_btype D) (d_ice D) (d_pmode D) (d_fmode D) (d_sauce D) (d_pal D) (set_font k f (d_fonts D)) (d_layers D), false)
       end
     | None =>
